@@ -443,12 +443,16 @@ def ede4After (m : Down) : Bool := m.opt && (m.ad || m.edes.contains 4)
 def passReply (m : Down) (aq : Nat := 0) : Reply :=
   { kind := .pass, rcode := m.rcode, ad := m.ad, aq := aq, ede4 := m.opt && m.edes.contains 4, ans := m.ans }
 
+/-- the tail of `WriteMsg` when `synthesise` returned nil: the (already
+filtered) AAAA reply goes out; if filtering copied it, AD is cleared. -/
+def fallbackReply (orig : Down) (copied : Bool) (aq : Nat) : Reply :=
+  if copied then { passReply orig aq with kind := .filteredAll, ad := false, ede4 := ede4After orig }
+  else passReply orig aq
+
 /-- `synthesise` and the tail of `WriteMsg`; `orig` is the already filtered
 message, `copied` says whether filtering made a copy. -/
 def synthesise (c : Cfg) (orig : Down) (copied : Bool) (a : AResp) : Reply :=
-  let fallback (aq : Nat) : Reply :=
-    if copied then { passReply orig aq with kind := .filteredAll, ad := false, ede4 := ede4After orig }
-    else passReply orig aq
+  let fallback (aq : Nat) : Reply := fallbackReply orig copied aq
   match a.err with
   | .noQueryer => fallback 0
   | .work => { kind := .workFail, rcode := 2, aq := 1 }
